@@ -17,7 +17,10 @@ PROP = Prop(
     lemmas=lambda: ok.inner_zero.lemmas() + ol.okt_mono.lemmas() + oml.lemmas(),
     level='other',
     replay=script_replay('replay/omen.py', default_fn='KEYSPACE'),
-    bounded=[Bounded('C18.bounded.keyspace', 'replay/omen.py', args=['--fn', 'KEYSPACE'],
+    bounded=[Bounded('C18.bounded.enum', 'replay/omen.py', args=['--fn', 'ENUM'],
+                     bound='250 random OMEN models quick / 1500 thorough, every level 0..24 (initial n-grams and lengths at every level 0..10)',
+                     clause='what the guesser really produces per level: exact enumeration incl. levels 10 and above (same stand-in as C10.bounded.enum)'),
+             Bounded('C18.bounded.keyspace', 'replay/omen.py', args=['--fn', 'KEYSPACE'],
                      bound='rulesets trained by the real trainer functions from small lists: a list dominated by passwords as long as the n-gram, a list dominated by one length '
                            '(length level 0), random lists; n-gram 2..5; max_keyspace = default and cut-offs 1, 2, 4; levels 1..6 (1..4 for n-gram < 4)',
                      clause='every level listed in omen_keyspace.txt has as keyspace the number of distinct strings the real MarkovCracker emits at that level from the files written; '
